@@ -47,6 +47,8 @@ _WORKER_CAP = 120
 
 def _init_worker(modname, cap):
     global _WORKER_FN, _WORKER_CAP
+    if os.environ.get("QV_XEVERY"):
+        Stats.XEVERY = int(os.environ["QV_XEVERY"])
     import importlib
 
     mod = importlib.import_module(modname)
@@ -134,6 +136,8 @@ def main_for(mod, argv=None):
         tier = "quick"
     seed = int(os.environ.get("VERIF_SEED", "0") or 0)
     t0 = time.time()
+    if tier == "thorough":
+        os.environ.setdefault("QV_XEVERY", "41")
     specs = mod.make_items(tier, seed)
     cap = getattr(mod, "ITEM_CAP", {"quick": 120, "thorough": 600})[tier]
     results = run_items(mod.__name__, specs, cap=cap)
@@ -144,14 +148,20 @@ def finish(mod, tier, seed, specs, results, t0):
     pid = mod.PID
     known = load_known(pid)
     os.makedirs(os.path.join(VERIF, "replays", pid), exist_ok=True)
+    for old in os.listdir(os.path.join(VERIF, "replays", pid)):  # replay files of earlier runs
+        if old.endswith(".json"):
+            try:
+                os.unlink(os.path.join(VERIF, "replays", pid, old))
+            except OSError:
+                pass
     n_viol = 0
     n_known = 0
     inconclusive = []
-    tot = dict(queries=0, sat=0, unsat=0, unknown=0, solver_s=0.0)
+    tot = dict(queries=0, sat=0, unsat=0, unknown=0, solver_s=0.0, xchecked=0, xmismatch=0)
     seen_known = set()
     out_lines = []
     for spec, r in zip(specs, results):
-        for k in ("queries", "sat", "unsat", "unknown"):
+        for k in ("queries", "sat", "unsat", "unknown", "xchecked", "xmismatch"):
             tot[k] += int(r.get(k, 0))
         tot["solver_s"] += float(r.get("solver_s", 0.0))
         if r["status"] == "inconclusive":
@@ -180,6 +190,7 @@ def finish(mod, tier, seed, specs, results, t0):
     cov["queries_discharged"] = tot["queries"]
     cov["solver_verdicts"] = {"sat": tot["sat"], "unsat": tot["unsat"], "unknown": tot["unknown"]}
     cov["solver_seconds"] = round(tot["solver_s"], 2)
+    cov["cross_checked_with_cvc5"] = {"queries": tot["xchecked"], "disagreements": tot["xmismatch"]}
     cov["known_findings_matched"] = n_known
     cov["inconclusive_items"] = inconclusive[:10]
     cov["inconclusive_count"] = len(inconclusive)
@@ -236,9 +247,12 @@ def replay(mod, path):
 class Stats:
     """per-item solver statistics"""
 
+    XEVERY = 0  # >0: every XEVERY-th query is re-decided by cvc5 (thorough tier)
+
     def __init__(self):
         self.queries = self.sat = self.unsat = self.unknown = 0
         self.solver_s = 0.0
+        self.xchecked = self.xmismatch = 0
 
     def check(self, solver, *assumptions):
         import z3
@@ -248,6 +262,15 @@ class Stats:
         self.solver_s += time.time() - t
         self.queries += 1
         s = str(r)
+        if Stats.XEVERY and self.queries % Stats.XEVERY == 1 and s in ("sat", "unsat"):
+            try:
+                other = cvc5_verdict(solver, assumptions)
+                if other in ("sat", "unsat"):
+                    self.xchecked += 1
+                    if other != s:
+                        self.xmismatch += 1
+            except Exception:
+                pass
         if s == "sat":
             self.sat += 1
         elif s == "unsat":
@@ -257,5 +280,33 @@ class Stats:
         return s
 
     def into(self, d):
-        d.update(queries=self.queries, sat=self.sat, unsat=self.unsat, unknown=self.unknown, solver_s=round(self.solver_s, 4))
+        d.update(queries=self.queries, sat=self.sat, unsat=self.unsat, unknown=self.unknown, solver_s=round(self.solver_s, 4), xchecked=self.xchecked, xmismatch=self.xmismatch)
+        if self.xmismatch and d.get("status") == "ok":
+            d.update(status="inconclusive", note="z3 and cvc5 disagree on %d re-decided queries" % self.xmismatch)
         return d
+
+
+def cvc5_verdict(solver, assumptions, tlimit_ms=5000):
+    """re-decide the query (solver assertions + assumptions) with cvc5 from the SMT-LIB2 dump"""
+    import cvc5
+    import z3
+
+    s2 = z3.Solver()
+    s2.add(*solver.assertions())
+    s2.add(*assumptions)
+    txt = s2.to_smt2()
+    slv = cvc5.Solver()
+    slv.setOption("tlimit-per", str(tlimit_ms))
+    slv.setLogic("ALL")
+    p = cvc5.InputParser(slv)
+    p.setStringInput(cvc5.InputLanguage.SMT_LIB_2_6, txt, "q")
+    sm = p.getSymbolManager()
+    res = None
+    while True:
+        cmd = p.nextCommand()
+        if cmd.isNull():
+            break
+        out = str(cmd.invoke(slv, sm)).strip()
+        if out in ("sat", "unsat", "unknown"):
+            res = out
+    return res
